@@ -71,6 +71,12 @@ func cmdCheck(args []string) int {
 			return 2
 		}
 		roots := append([]string{}, pd.Roots...)
+		for _, r := range roots {
+			if eng.cs.ByTarget[r] == nil {
+				fmt.Fprintf(os.Stderr, "govc: property %s names root %s, which has no contract\n", *prop, r)
+				return 2
+			}
+		}
 		var uncontracted []string
 		if len(pd.Callers) > 0 {
 			want := map[string]bool{}
